@@ -6,6 +6,7 @@ import PV.Model.TED
 import PV.Model.Gate
 import PV.Model.CFG
 import PV.Model.Summary
+import PV.Model.PySem
 /-!
 Line-protocol driver: runs the executable models on the cases the harness also ran on the
 implementation.  Core-only imports (links as a native executable).
@@ -236,6 +237,15 @@ def runSummary (t : Array String) : String :=
   let scores := [s.ComplexityScore, s.DeadCodeScore, s.DuplicationScore, s.CouplingScore, s.CohesionScore, s.DependencyScore, s.ArchitectureScore]
   s!"{joinWith "," (ints.map toString)}|{joinWith "," (floats.map hex16)}|{s.HealthScore}|{s.Grade}|{joinWith "," (scores.map toString)}"
 
+/-- `live <f|c|m> s e <list>` → the lines `PV.Py.live` predicts executable when the body is entered, and the possible outcomes -/
+def runLive (t : Array String) : String :=
+  if t.size < 5 then "bad-op" else
+  let (body, _) := parseList t 3
+  let r := PV.Py.live body
+  let o := r.outs
+  let b (x : Bool) : String := if x then "1" else "0"
+  s!"{natsSorted r.lines.eraseDups}|{b o.normal}{b o.ret}{b o.brk}{b o.cont}{b o.exc}"
+
 def step (line : String) : String :=
   let parts := (line.splitOn " ").filter (· ≠ "")
   match parts with
@@ -250,6 +260,7 @@ def step (line : String) : String :=
     | "gate" => runGate t
     | "cfg" => runCfg t
     | "summary" => runSummary t
+    | "live" => runLive t
     | _ => "bad-op"
 
 partial def loop (h : IO.FS.Stream) (out : IO.FS.Stream) : IO Unit := do
